@@ -1137,8 +1137,7 @@ def _r15klm(ctx, prog):
                 ctx.fail("R15m", f, c, inst, "the body is reset while Watch/Alarm handlers registered by its previous invocation are still "
                          "alive: such a handler continues in the middle of the reset body, its Completed lands on the invocation the "
                          "new caller has just created, and the new caller's states follow behind it")
-    if n_reset < 2:
-        raise AnchorError(f"only {n_reset} body resets found in PInterpreter (floor 2)")
+    ctx.floor("R15m", 2)
 
 
 def _r15j(ctx, prog):
